@@ -224,6 +224,11 @@ fn c01_compare(property: &str, subject: &dyn Subject, input: &[u8], reference: &
 }
 
 pub fn c01(subjects: &[Box<dyn Subject>], docs: &[Doc], params: &C01Params, budget: &Budget, report: &mut Report) {
+    c01_as("C01", subjects, docs, params, budget, report)
+}
+
+/// The schedule-independence sweep, reported under `property` (C14 reuses it for the SWAR load guards).
+pub fn c01_as(property: &str, subjects: &[Box<dyn Subject>], docs: &[Doc], params: &C01Params, budget: &Budget, report: &mut Report) {
     let units: Vec<(usize, usize)> = (0..docs.len()).flat_map(|d| (0..subjects.len()).map(move |s| (s, d))).collect();
     let total = crate::par::par_fold(
         units.len(),
@@ -244,26 +249,26 @@ pub fn c01(subjects: &[Box<dyn Subject>], docs: &[Doc], params: &C01Params, budg
             acc.states += 1;
             if input.len() <= params.all_len {
                 explore_schedules(subject, input, &Spec::choose(vec![], 1, None), None, acc, |spec, ex, rep| {
-                    c01_compare("C01", subject, input, &reference, spec, ex, rep)
+                    c01_compare(property, subject, input, &reference, spec, ex, rep)
                 });
             } else {
                 let bound = if input.len() <= params.dev2_max_len { params.dev_bound } else { 1 };
                 explore_schedules(subject, input, &Spec::choose(vec![], params.dev_interrupts, None), Some(bound), acc, |spec, ex, rep| {
-                    c01_compare("C01", subject, input, &reference, spec, ex, rep)
+                    c01_compare(property, subject, input, &reference, spec, ex, rep)
                 });
             }
             for &s in &params.uni {
                 for &chunk in &params.chunks {
                     let spec = Spec::uniform(s, chunk);
                     let ex = run_spec(subject, input, &spec);
-                    c01_compare("C01", subject, input, &reference, &spec, &ex, acc);
+                    c01_compare(property, subject, input, &reference, &spec, &ex, acc);
                 }
             }
             // construction through from_buf_reader with left-over buffered bytes
             for (cap, s, chunk) in [(1usize, 1usize, Some(1usize)), (4, 3, Some(2)), (8, 16, None), (64, 2, Some(8))] {
                 let spec = Spec::uniform(s, chunk).via_buf_reader(cap);
                 let ex = run_spec(subject, input, &spec);
-                c01_compare("C01", subject, input, &reference, &spec, &ex, acc);
+                c01_compare(property, subject, input, &reference, &spec, &ex, acc);
             }
         },
         |a, b| a.merge(b),
